@@ -26,6 +26,16 @@ FEATURES = {
     "globalstore": "def g_():\n    global gg_\n    gg_ = V\ng_()\nprint(gg_)",
     "chain": "print(V)\nprint(V)\nprint(V)",
     "closure": "def h_():\n    def inner():\n        return V\n    return inner()\nprint(h_())",
+    # several temporaries of ONE kind alive in one statement / one output (they must not share a name)
+    "nested-pattern": "(a2_, b2_), c2_ = (V, 2), 3\nprint(a2_, b2_, c2_)\n(h2_, *t2_), l2_ = [[V, 1, 2], 9]\nprint(h2_, t2_, l2_)",
+    "chained-pattern": "x3_, y3_ = pair_ = [V, 20]\nprint(x3_, y3_, pair_, type(pair_).__name__)\nr3_ = s3_, t3_ = (V, 5)\nprint(r3_, s3_, t3_)",
+    "for-nested-target": "for (k4_, v4_), i4_ in zip({V: 2}.items(), [5]):\n    print(k4_, v4_, i4_)\nfor i5_, (a5_, b5_) in enumerate([(V, 1)]):\n    print(i5_, a5_, b5_)",
+    "nested-loops": "for i6_ in range(2):\n    j6_ = 0\n    while j6_ < 3:\n        j6_ += 1\n        if j6_ == 2:\n            break\n        for k6_ in range(2):\n            if k6_:\n                continue\n            print(V, i6_, j6_, k6_)\n    else:\n        print('no break')",
+    "nested-returns": "def o7_(n):\n    def i7_(m):\n        for q7_ in range(m):\n            if q7_ == 1:\n                return (V, q7_)\n        return None\n    while n:\n        n -= 1\n        if i7_(n):\n            return i7_(n)\n    return 'end'\nprint(o7_(3), o7_(1))",
+    "nested-classes": "class O8_:\n    a = V\n    class I8_:\n        b = 2\n        def m(self):\n            return V\n    def n(self):\n        return self.I8_().m()\nprint(O8_.a, O8_.I8_.b, O8_().n())",
+    "aug-attr-sub": "class B9_:\n    pass\no9_ = B9_()\no9_.a = [1]\no9_.a += [V]\no9_.a[0] += 5\nd9_ = {'k': {'j': 1}}\nd9_['k']['j'] += 2\nprint(o9_.a, d9_)",
+    "two-imports": "import os.path, json as J_\nfrom os import sep as S_, path as P3_\nprint(V, os.path.basename('a/b'), J_.dumps([1]), S_ == os.sep)",
+    "comprehension-walrus": "print([y0_ for x0_ in [V, V] if (y0_ := x0_) is not None], [[(z0_ := w0_) for w0_ in [V]] for _q in range(2)])",
 }
 
 
@@ -48,7 +58,7 @@ def program(ident, role, feature):
     if role == "classname":
         return f"class {ident}:\n    a = 7\n" + body.replace("V", f"{ident}.a") + "\n"
     if role == "classattr":
-        if feature in ("globalstore", "closure", "class"):
+        if feature in ("globalstore", "closure", "class", "comprehension-walrus", "nested-classes", "nested-returns"):
             return None
         return "class C_:\n" + _ind(f"{ident} = 7\n" + body.replace("V", ident)) + "\n"
     if role == "alias":
